@@ -212,6 +212,28 @@ Fixpoint join_words (ws : list str) : str :=
   | w :: ws' => quote_word w ++ ch_space :: join_words ws'
   end.
 
+(* A quoting function for EVERY word.  Inside a quoted segment a backslash in front of the closing
+   quote would escape it, so the backslashes a word ends in are written behind the closing quote,
+   where a backslash is an ordinary character. *)
+Fixpoint trail (w : str) : str * nat :=            (* w = body ++ k backslashes, body not ending in one *)
+  match w with
+  | [] => ([], 0%nat)
+  | c :: t =>
+    let (u, k) := trail t in
+    match u with
+    | [] => if c =? ch_bslash then ([], S k) else ([c], k)
+    | _ :: _ => (c :: u, k)
+    end
+  end.
+Definition quote_word_bs (w : str) : str :=
+  let (u, k) := trail w in quote_word u ++ repeat ch_bslash k.
+Fixpoint join_words_bs (ws : list str) : str :=
+  match ws with
+  | [] => []
+  | [w] => quote_word_bs w
+  | w :: ws' => quote_word_bs w ++ ch_space :: join_words_bs ws'
+  end.
+
 (* ---------------------------------------------------------------------------------------- *)
 (* C. what the child is handed                                                              *)
 (* ---------------------------------------------------------------------------------------- *)
